@@ -110,6 +110,14 @@ const STACK_BUDGET: usize = 512 * KIBI;
 #[cfg(not(target_family = "wasm"))]
 const STACK_BUDGET: usize = 4 * MEBI;
 
+/// Deepest nesting of arrays inside arrays a value may reach. Copying, relocating,
+/// dropping and printing a value recurse once per level without a stack probe, so the
+/// depth must stay small enough for those walks to fit below `STACK_BUDGET`.
+#[cfg(target_family = "wasm")]
+const MAX_ARRAY_NESTING: usize = 256;
+#[cfg(not(target_family = "wasm"))]
+const MAX_ARRAY_NESTING: usize = 1024;
+
 // Epsilon used for approximate floating-point equality checks
 const FLOAT_EQ_EPS: f64 = 1e-12;
 
@@ -131,6 +139,17 @@ pub enum Value<'a> {
 }
 
 impl<'a> Value<'a> {
+    /// Whether arrays are nested more than `limit` levels deep in this value.
+    /// Recurses at most `limit + 1` levels itself.
+    fn nests_deeper_than(&self, limit: usize) -> bool {
+        match self {
+            Value::Array(items) => {
+                limit == 0 || items.iter().any(|item| item.nests_deeper_than(limit - 1))
+            }
+            _ => false,
+        }
+    }
+
     /// Clones the value, placing any array backing stores in the given arena.
     /// Strings use zero-cost clone. Numbers/bools/null are trivial copies.
     fn clone_into(&self, arena: &'a Arena) -> Self {
@@ -363,6 +382,17 @@ impl<'a> Runtime<'a> {
         let probe = 0u8;
         let current = &raw const probe as usize;
         if self.stack_base.wrapping_sub(current) > STACK_BUDGET {
+            return Err(RuntimeError::new(RuntimeErrorKind::StackOverflow, span));
+        }
+        Ok(())
+    }
+
+    /// Rejects a value that is about to be stored `enclosing` arrays deep when that would
+    /// nest arrays deeper than `MAX_ARRAY_NESTING`. Every place where nesting can grow
+    /// (array literal, `push`, index assignment) calls this, which bounds the unprobed
+    /// recursions over a value's depth.
+    fn check_nesting(value: &Value<'a>, enclosing: usize, span: Span) -> Result<(), RuntimeError> {
+        if enclosing > MAX_ARRAY_NESTING || value.nests_deeper_than(MAX_ARRAY_NESTING - enclosing) {
             return Err(RuntimeError::new(RuntimeErrorKind::StackOverflow, span));
         }
         Ok(())
@@ -747,13 +777,15 @@ impl<'a> Runtime<'a> {
                     _ => unreachable!("Semantic analysis guarantees valid unary expressions"),
                 }
             }
-            Expr::Array { elements, .. } => {
+            Expr::Array { elements, span } => {
                 let mut values = Vec::with_capacity_in(elements.len(), self.frame);
                 for element in *elements {
                     let val = self.eval_expr(element)?;
                     values.push(val);
                 }
-                Ok(Value::Array(values))
+                let array = Value::Array(values);
+                Self::check_nesting(&array, 0, *span)?;
+                Ok(array)
             }
             Expr::Index { array, index, index_span, .. } => {
                 let array_value = self.eval_expr(array)?;
@@ -1011,6 +1043,14 @@ impl<'a> Runtime<'a> {
         match builtin {
             ArrayBuiltin::Push => {
                 let value = self.eval_expr(args.args[0])?;
+                // The receiver is one array level per index of its chain below the variable.
+                let mut enclosing = 1;
+                let mut object = receiver;
+                while let Expr::Index { array, .. } = object {
+                    enclosing += 1;
+                    object = array;
+                }
+                Self::check_nesting(&value, enclosing, span)?;
                 // Promote before pushing, the target array lives on persistent,
                 // but the value may reference frame-arena memory.
                 let value = if self.has_frame_arena() {
@@ -1648,6 +1688,8 @@ impl<'a> Runtime<'a> {
             let idx = self.eval_index_value(index_expr, *index_span)?;
             evaluated_indices.push((idx, *index_span));
         }
+
+        Self::check_nesting(&value, evaluated_indices.len(), span)?;
 
         // Promote before taking the mutable borrow on the variable.
         let value =
